@@ -117,7 +117,9 @@ def judge(ctx, p, rng):
                 res.count("options_with_own_position")
             for n_, s_ in enumerate(specs):
                 if own_pos:
-                    ld.addOption(s_, ("zcv-options.txt", n_ + 1, 4))
+                    # ("a sequence of three values": a tuple or a list)
+                    pos_ = ("zcv-options.txt", n_ + 1, 4)
+                    ld.addOption(s_, list(pos_) if n_ % 2 else pos_)
                 else:
                     ld.addOption(s_)
             for _ in (1, 2):
@@ -197,7 +199,8 @@ def check_bad_specs(ctx, schema, rng):
                     schema, io.StringIO(""), overrides=sp), "loadConfigFile"),
                 (lambda sp: ZConfig.loadConfig(schema, path, overrides=sp),
                  "loadConfig")):
-            for lst in ([spec], ["nosuchkey9=v", spec]):
+            for lst in ([spec], ["nosuchkey9=v", spec], iter([spec]),
+                        (x for x in ["alpha=v", spec]), (spec,)):
                 res.evaluations += 1
                 res.count("bad_specifiers_via_functions")
                 try:
@@ -205,18 +208,20 @@ def check_bad_specs(ctx, schema, rng):
                 except ZConfig.ConfigurationSyntaxError as e:
                     if "nosuchkey9" in str(e):
                         res.violate("bad-specifier-accepted",
-                                    {"spec": spec, "via": label, "list": lst},
+                                    {"spec": spec, "via": label,
+                                     "list": repr(lst)},
                                     "refused as a specifier", str(e)[:200])
                     continue
                 except Exception as e:  # noqa
                     res.violate("bad-specifier-wrong-error",
-                                {"spec": spec, "via": label, "list": lst},
+                                {"spec": spec, "via": label,
+                                 "list": repr(lst)},
                                 "ConfigurationSyntaxError for the specifier",
                                 "%s: %s" % (type(e).__name__, e),
                                 vsig="badspec-fn|%s" % type(e).__name__)
                     continue
                 res.violate("bad-specifier-accepted",
-                            {"spec": spec, "via": label, "list": lst},
+                            {"spec": spec, "via": label, "list": repr(lst)},
                             "refused", "accepted",
                             vsig="badspec-fn|accepted")
     for spec in BAD_SPECS:
